@@ -19,7 +19,7 @@ def q(prop, quick=40, thorough=900, level="exploration", rule=None, extra_stages
                 rule=rule or ("each evaluation is one seeded run of the queue world (drawn nsqd configuration, generated operation/fault list, "
                               "seeded yield policy); distinct = distinct schedule fingerprint (hash of the sequence of yield sites executed); "
                               "non-trivial = delivered at least one message and had yields, faults or clock advances"),
-                components=dict(real=REAL_Q, stub=STUB_Q), assumptions=ASSUME, crash_property="C08")
+                components=dict(real=REAL_Q, stub=STUB_Q), assumptions=ASSUME, crash_property=prop)
 
 PLANS = {
     "C01": q("C01"),
